@@ -727,7 +727,7 @@ Lemma flat_probe_ok : forall k depth net p, WFnet net -> flat_probe_result k dep
 Proof.
   intros k depth net p W H. destruct k; cbn [flat_probe_result] in H.
   - apply (edge_endpoint_ok_iff net p W), H.
-  - destruct (Nat.leb 2 depth); [discriminate|]. apply (add_input_ok_iff net p W), H.
+  - apply (add_input_ok_iff net p W), H.
   - apply (add_input_ok_iff net p W), H.
   - apply node_value_ok_target, H.
   - apply (proj1 (resolve_outputs_ok_iff net [p] W) H p). left. reflexivity.
@@ -745,8 +745,9 @@ Lemma hier_gen_ok_wellformed : forall fixed4 k depth hnet p, WFnet (subnet hnet 
 Proof.
   intros fixed4 k depth hnet p W G H. unfold hier_result_gen in H. cbn [WellFormed].
   destruct (too_short depth p) eqn:TS.
-  - exfalso. destruct (names_circuit hnet (node_part p)) eqn:NC.
-    + destruct k; try discriminate. destruct fixed4; [discriminate|]. cbn in G. discriminate.
+  - exfalso. destruct (names_circuit hnet (node_part p) && is_node_value k && negb fixed4) eqn:NC.
+    + rewrite !andb_true_iff in NC. destruct NC as [[NC K] F]. destruct k; try discriminate.
+      rewrite NC in G. destruct fixed4; discriminate.
     + exact (flat_probe_nowhere k depth H).
   - split; [reflexivity|]. pose proof (flat_probe_ok k depth _ _ W H) as X. destruct k; exact X.
 Qed.
@@ -772,9 +773,11 @@ Lemma hier_warn : forall k depth hnet p, hier_result k depth hnet p = Warn -> wa
 Proof.
   intros k depth hnet p H. unfold hier_result, hier_result_gen in H.
   destruct (too_short depth p) eqn:TS.
-  - destruct k; cbn [warn_suffices]; try reflexivity; try (rewrite TS; reflexivity).
-    + destruct (names_circuit hnet (node_part p)); [discriminate|]. apply flat_probe_warn in H. destruct H.
-    + destruct (names_circuit hnet (node_part p)); [discriminate|]. apply flat_probe_warn in H. destruct H.
+  - destruct (names_circuit hnet (node_part p) && is_node_value k && negb fixed_F4); [discriminate|].
+    pose proof (flat_probe_warn _ _ _ _ H) as X. destruct k; cbn [warn_suffices]; try reflexivity.
+    + destruct X.
+    + rewrite TS. reflexivity.
+    + destruct X.
   - pose proof (flat_probe_warn _ _ _ _ H) as X. destruct k; cbn [warn_suffices].
     + destruct X.
     + reflexivity.
@@ -941,3 +944,10 @@ Qed.
 Theorem short_node_value_repaired : forall depth hnet p, too_short depth p = true ->
   names_circuit hnet (node_part p) = true -> hier_result_gen true HNodeValue depth hnet p = Warn.
 Proof. intros depth hnet p T N. unfold hier_result_gen. rewrite T, N. reflexivity. Qed.
+(* since D87 every kind of too-short key is treated like a node that does not exist *)
+Theorem short_key_is_loud : forall k depth hnet p, too_short depth p = true ->
+  hier_result_gen true k depth hnet p =
+  match k with HEdge => Err EOther | HOutput => Err EPyRates | _ => Warn end.
+Proof.
+  intros k depth hnet p T. unfold hier_result_gen. rewrite T, andb_false_r. destruct k; reflexivity.
+Qed.
